@@ -129,7 +129,7 @@ Proof.
   all: try (destruct (count_below boundary hs) as [before| |] eqn:CB; cbn [bind]; try discriminate;
             pose proof (count_below_le _ _ _ CB) as Hbefore; fold total in Hbefore).
   all: try (destruct (N.ltb_spec last_n (total - before)) as [Hl|Hl]).
-  all: try (unfold sub_chk; destruct (N.leb_spec reorg before) as [Hrb|Hrb]; cbn [bind]; try discriminate).
+  all: try (match goal with |- context [if ?b <? ?r then Err E_INVALID_REORG else _] => destruct (N.ltb_spec b r) as [Hrb|Hrb]; cbn [bind]; try discriminate end).
   all: cbn [bind].
   all: match goal with
        | |- context [if ?sv =? 0 then _ else _] => destruct (N.eqb_spec sv 0) as [S0|S0]
@@ -138,8 +138,8 @@ Proof.
   all: try (destruct (nth_hdr hs reorg) as [f| |] eqn:NF; cbn [bind]; try discriminate;
             destruct (nth_hdr hs (total - 1)) as [lst| |] eqn:NLst; cbn [bind]; try discriminate;
             destruct (N.eqb_spec (h_num f) start) as [EF|]; cbn [negb]; try discriminate;
-            unfold add64, add_chk; destruct (N.leb_spec (h_num lst + 1) U64MAX); cbn [bind]; try discriminate;
-            destruct (N.eqb_spec (h_num lst + 1) last_number) as [ELn|]; try discriminate).
+            destruct ((h_num lst + 1 <=? U64MAX) && (h_num lst + 1 =? last_number)) eqn:ELn0; try discriminate;
+            apply andb_true_iff in ELn0; destruct ELn0 as [_ ELn]; apply N.eqb_eq in ELn).
   all: try (match goal with
             | |- context [nth_hdr ?hh (?rr + ?sv)] =>
                 destruct (nth_hdr hh (rr + sv)) as [fl| |] eqn:NFl; cbn [bind]; try discriminate;
@@ -163,4 +163,105 @@ Proof.
             [apply nth_hdr_ok; exact NF | exact EF | apply nth_hdr_ok; exact NLst | exact ELn]).
   all: try (intros _; split; [lia|]; eexists fl, fl_td, _; repeat split;
             [apply nth_hdr_ok; exact NFl | exact TFl | exact CS | intros ? ? E; inversion E; subst; lia || discriminate]).
+Qed.
+
+(* ------------------------------------------------------------------------------------ *)
+(* no panic: with a configured last-N >= 1 and headers whose total difficulties do not overflow
+   (the handlers reject the others up front), check_if_response_is_matched always returns *)
+
+Definition td_ok (h : mhdr) : Prop := is_ok (td h) = true.
+
+Lemma nth_hdr_in_range hs i : i < lenN hs -> exists h, nth_hdr hs i = Ok h /\ In h hs.
+Proof.
+  unfold lenN, nth_hdr. intros H.
+  destruct (nth_error hs (N.to_nat i)) as [h|] eqn:E.
+  - exists h. split; [reflexivity | eapply nth_error_In; eauto].
+  - apply nth_error_None in E. lia.
+Qed.
+
+Lemma count_below_no_panic b hs :
+  Forall td_ok hs -> is_panic (count_below b hs) = false.
+Proof.
+  induction hs as [|h tl IH]; intros H; [reflexivity|]. inversion H as [|? ? Hh Ht]; subst.
+  cbn [count_below]. unfold td_ok in Hh. destruct (td h) as [t| |]; cbn [bind]; try discriminate.
+  destruct (t <? b); [|reflexivity]. specialize (IH Ht).
+  destruct (count_below b tl); cbn [bind]; [reflexivity | reflexivity | exact IH].
+Qed.
+
+Lemma check_samples_no_panic hs : forall ds,
+  Forall td_ok hs -> is_panic (check_samples hs ds) = false.
+Proof.
+  induction hs as [|h tl IH]; intros ds H; [reflexivity|]. inversion H as [|? ? Hh Ht]; subst.
+  cbn [check_samples]. unfold td_ok in Hh. destruct (td h) as [t| |]; cbn [bind]; try discriminate.
+  destruct (consume (h_ptd h) t ds) as [valid ds']. destruct valid; [apply IH; exact Ht | reflexivity].
+Qed.
+
+Lemma in_firstn {A} (x : A) n l : In x (firstn n l) -> In x l.
+Proof.
+  revert l; induction n as [|n IH]; intros l H; [contradiction|].
+  destruct l as [|a l]; [contradiction|]. cbn in H. destruct H as [->|H]; [left; reflexivity | right; apply IH; exact H].
+Qed.
+
+Lemma in_skipn {A} (x : A) n l : In x (skipn n l) -> In x l.
+Proof.
+  revert l; induction n as [|n IH]; intros l H; [exact H|].
+  destruct l as [|a l]; [contradiction|]. right. apply IH. exact H.
+Qed.
+
+Lemma Forall_slice {A} (P : A -> Prop) l from cnt : Forall P l -> Forall P (slice l from cnt).
+Proof.
+  intros H. unfold slice. rewrite Forall_forall in *. intros x Hx.
+  apply H. apply in_firstn in Hx. eapply in_skipn; eauto.
+Qed.
+
+Lemma matched_no_panic last_n start boundary ds hs last_number :
+  1 <= last_n -> Forall td_ok hs ->
+  is_panic (matched last_n start boundary ds hs last_number) = false.
+Proof.
+  intros Hn Htd. unfold matched. destruct hs as [|first tl]; [reflexivity|].
+  set (hs := first :: tl) in *.
+  destruct (unsorted hs); [reflexivity|].
+  set (total := lenN hs). set (reorg := count_while (fun h => h_num h <? start) hs).
+  pose proof (count_while_le (fun h => h_num h <? start) hs) as Hreorg. fold reorg in Hreorg. fold total in Hreorg.
+  assert (Htot : 1 <= total) by (unfold total, lenN, hs; cbn [length]; lia).
+  (* reorg gate *)
+  match goal with |- is_panic (bind ?g ?k) = false =>
+    assert (HG : is_panic g = false);
+    [ | assert (HK : is_panic (k tt) = false);
+        [ cbn beta | destruct g as [[]| |]; cbn [bind]; [exact HK | reflexivity | discriminate HG] ] ]
+  end.
+  { destruct (N.eqb_spec reorg 0); [reflexivity|].
+    destruct (andb _ _); [reflexivity|].
+    destruct (nth_hdr_in_range hs (reorg - 1) ltac:(lia)) as [lr [E _]]. rewrite E. cbn [bind].
+    destruct (_ =? _); reflexivity. }
+  (* section sizes *)
+  destruct (N.ltb_spec last_n (total - reorg)) as [Hbig|Hsmall].
+  - pose proof (count_below_no_panic boundary hs Htd) as CB.
+    destruct (count_below boundary hs) as [before| |] eqn:CBE; cbn [bind]; try reflexivity; try discriminate.
+    pose proof (count_below_le _ _ _ CBE) as Hbefore. fold total in Hbefore.
+    destruct (N.ltb_spec last_n (total - before)) as [Hl|Hl].
+    + destruct (N.ltb_spec before reorg); cbn [bind]; [reflexivity|].
+      destruct (N.eqb_spec (before - reorg) 0) as [S0|S0].
+      * destruct (N.ltb_spec 0 (total - before)); [|reflexivity].
+        destruct (nth_hdr_in_range hs reorg ltac:(lia)) as [f [E1 _]]. rewrite E1. cbn [bind].
+        destruct (nth_hdr_in_range hs (total - 1) ltac:(lia)) as [l [E2 _]]. rewrite E2. cbn [bind].
+        destruct (negb (h_num f =? start)); cbn [bind]; [reflexivity|]. destruct ((h_num l + 1 <=? U64MAX) && (h_num l + 1 =? last_number)); cbn [bind]; reflexivity.
+      * destruct (nth_hdr_in_range hs (reorg + (before - reorg)) ltac:(lia)) as [fl [E1 I1]]. rewrite E1. cbn [bind].
+        assert (Hfl : td_ok fl) by (rewrite Forall_forall in Htd; apply Htd; exact I1).
+        unfold td_ok in Hfl. destruct (td fl) as [fl_td| |]; cbn [bind]; try discriminate.
+        pose proof (check_samples_no_panic (slice hs reorg (before - reorg)) (take_below fl_td ds) (Forall_slice _ _ _ _ Htd)) as CS.
+        destruct (check_samples _ _) as [rest| |]; cbn [bind]; try reflexivity; try discriminate.
+        destruct rest as [|next rt]; cbn [bind]; [reflexivity|]. destruct (_ <=? _); cbn [bind]; reflexivity.
+    + cbn [bind]. destruct (N.eqb_spec (total - reorg - last_n) 0) as [S0|S0]; [lia|].
+      destruct (nth_hdr_in_range hs (reorg + (total - reorg - last_n)) ltac:(lia)) as [fl [E1 I1]]. rewrite E1. cbn [bind].
+      assert (Hfl : td_ok fl) by (rewrite Forall_forall in Htd; apply Htd; exact I1).
+      unfold td_ok in Hfl. destruct (td fl) as [fl_td| |]; cbn [bind]; try discriminate.
+      pose proof (check_samples_no_panic (slice hs reorg (total - reorg - last_n)) (take_below fl_td ds) (Forall_slice _ _ _ _ Htd)) as CS.
+      destruct (check_samples _ _) as [rest| |]; cbn [bind]; try reflexivity; try discriminate.
+      destruct rest as [|next rt]; cbn [bind]; [reflexivity|]. destruct (_ <=? _); cbn [bind]; reflexivity.
+  - cbn [bind N.eqb]. rewrite N.eqb_refl.
+    destruct (N.ltb_spec 0 (total - reorg)); [|reflexivity].
+    destruct (nth_hdr_in_range hs reorg ltac:(lia)) as [f [E1 _]]. rewrite E1. cbn [bind].
+    destruct (nth_hdr_in_range hs (total - 1) ltac:(lia)) as [l [E2 _]]. rewrite E2. cbn [bind].
+    destruct (negb (h_num f =? start)); cbn [bind]; [reflexivity|]. destruct ((h_num l + 1 <=? U64MAX) && (h_num l + 1 =? last_number)); cbn [bind]; reflexivity.
 Qed.
